@@ -544,12 +544,12 @@ def _mk_ret(ann):
     return r
 
 
-RET = {'int': (int, _mk_ret(int)), 'List[int]': (List[int], _mk_ret(List[int])), 'str': (str, _mk_ret(str)),
+RET = {'None': (type(None), _mk_ret(None)), 'int': (int, _mk_ret(int)), 'List[int]': (List[int], _mk_ret(List[int])), 'str': (str, _mk_ret(str)),
        'dict': (dict, _mk_ret(dict)), 'Optional[int]': (__import__('typing').Optional[int], _mk_ret(__import__('typing').Optional[int]))}
 
 
 @ob('return-conversion', marks=['accept', 'reject'], budget=(40, 150),
-    bounds='@parse def r(v) -> T returning its argument, T in {int, List[int], str, dict, Optional[int]}; v = None | solver int | "5" | '
+    bounds='@parse def r(v) -> T returning its argument, T in {None, int, List[int], str, dict, Optional[int]}; v = None | solver int | "5" | '
            '"x" | [1, "2"] | {}: the caller gets exactly what converting v to T gives (None is converted like any other value), '
            'or a ParseError when that conversion fails')
 def return_conversion(V):
